@@ -103,7 +103,7 @@ def positions_reached(source: str):
 
 
 # ----------------------------------------------------------------------------- project generation
-def gen_tree(rng, comps=None, max_depth=4, root="proj", init_prob=0.7, extra_files=True, shadow=False):
+def gen_tree(rng, comps=None, max_depth=4, root="proj", init_prob=0.7, extra_files=True, shadow=False, pycache=False):
     """Returns dict relpath -> None (dir) / "" (file placeholder). Paths relative to tmp base, first component = root."""
     comps = comps or ["a", "b", "c", "ab", "a_b", "pkg", "m", "util", "utils", "x", "py", "pyx", "pyutil"]
     tree = {root: None}
@@ -133,6 +133,10 @@ def gen_tree(rng, comps=None, max_depth=4, root="proj", init_prob=0.7, extra_fil
     for d in list(dirs):
         if rng.random() < init_prob:
             tree[d + "/__init__.py"] = ""
+        if pycache and rng.random() < 0.2 and d + "/__pycache__" not in tree:
+            # excluded by the DEFAULT exclusion only: with exclusions=() it is a package like any other
+            tree[d + "/__pycache__"] = None
+            tree[d + "/__pycache__/cached.py"] = ""
         if extra_files and rng.random() < 0.2:
             extra = d + "/" + rng.choice(["notes.txt", "data.json", "README", "x.pyc", "py"])
             if extra not in tree and extra + ".py" not in tree:
